@@ -91,6 +91,7 @@ Section WithProgram.
 Variable P : program.
 
 Definition find_sys (s : ent) : option sysdecl := find (fun d => N.eqb (sd_id d) s) (p_sys P).
+Definition sys_or_default (s : ent) : sysdecl := match find_sys s with Some sd => sd | None => mkSys s Plain false false None end.
 Definition script_of (s run : N) : list action :=
   match alookup2 s run (p_scripts P) with Some l => l | None => [] end.
 Definition all_ids : list N := p_ents P ++ map sd_id (p_sys P).
@@ -504,7 +505,7 @@ Definition cb_bump (t : ent) (cb : cbrec) (once_taken : bool) (w : world) : worl
 (* the taken inner closure of a `once` reactor (and its canary) is dropped when the wrapper returns *)
 Definition once_finish (t : ent) (tk : token) (w : world) : world :=
   match alookup t (cbs w) with
-  | Some cb' => emit (EvDropSys t) (w <| cbs := aupd t (mkCb (Some tk) (cb_runno cb') (cb_captured cb') true false) (cbs w) |>)
+  | Some cb' => emit (EvDropSys t) (w <| cbs := aupd t (mkCb (cb_once cb') (cb_runno cb') (cb_captured cb') true false) (cbs w) |>)
   | None => w end.
 (* first statements of every harness body: sample all readers, log the run; an X body bumps its entity's local data *)
 Definition body_begin (sd : sysdecl) (t : ent) (runno captured : N) (w : world) : world :=
@@ -611,16 +612,14 @@ Fixpoint exec (fuel : nat) (i : instr) (w : world) {struct fuel} : result world 
         end
     | IBody t runno captured cl =>
         (* run_initialized_system (callbacks.rs:207-239) around the harness body *)
-        match find_sys t with
-        | None => Stuck 3
-        | Some sd =>
-            let w := body_begin sd t runno captured w in
-            match sd_kind sd with
-            | Plain =>
-                let (w, cs) := acts (OSys t runno) 0 (script_of t runno) w in
-                exec f (IApplyList cs) (plain_cleanup cl w)
-            | Excl => exec f (IExclSteps t runno 0 [CCleanup cl] (script_of t runno)) w
-            end
+        (* an undeclared system id gets the default declaration (plain, unit, does not take), as in the harness *)
+        let sd := sys_or_default t in
+        let w := body_begin sd t runno captured w in
+        match sd_kind sd with
+        | Plain =>
+            let (w, cs) := acts (OSys t runno) 0 (script_of t runno) w in
+            exec f (IApplyList cs) (plain_cleanup cl w)
+        | Excl => exec f (IExclSteps t runno 0 [CCleanup cl] (script_of t runno)) w
         end
     | IExclSteps s run idx pending [] => exec f (IApplyList pending) w
     | IExclSteps s run idx pending (a :: r) =>
